@@ -86,3 +86,119 @@ pub fn cursor(a: &[Sx]) -> String {
     }
     outs.join(" ")
 }
+
+// ---------------------------------------------------------------- C13: ParsedArg / ShortFlags
+
+fn show_flag(f: Result<char, &OsStr>) -> String {
+    match f {
+        Ok(c) => format!("(ok {})", c as u32),
+        Err(s) => format!("(err {})", hex(s.as_bytes())),
+    }
+}
+
+/// `(lex x<bytes>)`: every `ParsedArg` method on one argument.
+pub fn lex(a: &[Sx]) -> String {
+    let raw = clap_lex::RawArgs::new([OsString::from_vec(a[0].bytes())]);
+    let mut cur = raw.cursor();
+    let arg = raw.next(&mut cur).expect("one argument");
+    let to_value = match arg.to_value() {
+        Ok(s) => format!("(ok {})", hex(s.as_bytes())),
+        Err(s) => format!("(err {})", hex(s.as_bytes())),
+    };
+    let to_long = match arg.to_long() {
+        None => "none".to_string(),
+        Some((flag, value)) => {
+            let f = match flag {
+                Ok(s) => format!("(ok {})", hex(s.as_bytes())),
+                Err(s) => format!("(err {})", hex(s.as_bytes())),
+            };
+            format!("(some {} {})", f, opt(value, |v| hex(v.as_bytes())))
+        }
+    };
+    let to_short = match arg.to_short() {
+        None => "none".to_string(),
+        Some(sf) => {
+            let value = opt(sf.clone().next_value_os(), |v| hex(v.as_bytes()));
+            let mut walk = String::new();
+            let mut c = sf.clone();
+            let mut guard = 0usize;
+            while let Some(x) = c.next_flag() {
+                walk.push(' ');
+                walk.push_str(&show_flag(x));
+                guard += 1;
+                if guard > a[0].bytes().len() + 2 {
+                    walk = " outoffuel".into();
+                    break;
+                }
+            }
+            format!("(some (value {value}) (walk{walk}))")
+        }
+    };
+    format!(
+        "(is_empty {}) (is_stdio {}) (is_escape {}) (is_neg {}) (is_long {}) (is_short {}) (to_value {}) (to_long {}) (to_short {})",
+        arg.is_empty(),
+        arg.is_stdio(),
+        arg.is_escape(),
+        arg.is_negative_number(),
+        arg.is_long(),
+        arg.is_short(),
+        to_value,
+        to_long,
+        to_short
+    )
+}
+
+/// `(short x<remainder> (ops...))`: an interleaving of `ShortFlags` calls on the cluster `-<remainder>`.
+pub fn short(a: &[Sx]) -> String {
+    let rem = a[0].bytes();
+    let mut argb = vec![b'-'];
+    argb.extend_from_slice(&rem);
+    let raw = clap_lex::RawArgs::new([OsString::from_vec(argb)]);
+    let mut cur = raw.cursor();
+    let arg = raw.next(&mut cur).expect("one argument");
+    let mut sf = match arg.to_short() {
+        None => return "noshort".into(),
+        Some(sf) => sf,
+    };
+    let mut outs: Vec<String> = vec!["short".into()];
+    for op in a[1].list() {
+        let l = op.list();
+        let r = catch_unwind(AssertUnwindSafe(|| match op.head() {
+            "next_flag" => match sf.next_flag() {
+                None => "none".to_string(),
+                Some(x) => show_flag(x),
+            },
+            "next_value" => opt(sf.next_value_os(), |v| hex(v.as_bytes())),
+            "advance" => match sf.advance_by(l[1].num() as usize) {
+                Ok(()) => "ok".to_string(),
+                Err(i) => format!("(err {i})"),
+            },
+            "is_empty" => sf.is_empty().to_string(),
+            "is_neg" => sf.is_negative_number().to_string(),
+            "clone-and-drain" => {
+                let mut c = sf.clone();
+                let mut s = String::from("(drain");
+                let mut guard = 0usize;
+                while let Some(x) = c.next_flag() {
+                    s.push(' ');
+                    s.push_str(&show_flag(x));
+                    guard += 1;
+                    if guard > rem.len() + 2 {
+                        return "outoffuel".to_string();
+                    }
+                }
+                s.push(')');
+                s
+            }
+            h => format!("badop-{h}"),
+        }));
+        match r {
+            Ok(s) => outs.push(s),
+            Err(_) => {
+                outs.push("panic".into());
+                break;
+            }
+        }
+    }
+    outs.join(" ")
+}
